@@ -513,14 +513,14 @@ fn c14(tier: Tier, seed: u64) -> i32 {
 
 fn c15(tier: Tier, seed: u64) -> i32 {
     let mut ctx = Ctx::new("C15", tier, seed);
-    let n = ctx.n(800, 150_000);
+    let n = ctx.n(800, 20_000);
     ctx.run_batch("flush_points", "histories as C14; a flush (one chain or all, sometimes twice, also before any draw) follows recorded draws with probability 0.3/0.6/1.0 (=> a crash point after every draw), chunk sizes {1,2,3,5,8,num_tune,num_draws,larger than both}; after each flush a fresh zarrs reader on a snapshot of the store must see the acknowledged prefix of every chain (all earlier acknowledgements re-checked at every later flush and after finalize); every fifth run uses the real zarrs FilesystemStore on a scratch directory; non-trivial = at least one flush", n, |rs, i| {
         let mut sc = gen_store(rs, "C15", &[Backend::ZarrSync]);
         // every fifth run on the real filesystem store (scratch directory under /verif/.scratch)
         sc.filesystem = i % 5 == 4;
         sc
     });
-    let n2 = ctx.n(400, 80_000);
+    let n2 = ctx.n(400, 8_000);
     ctx.run_batch("store_write_faults", "as above with the k-th store write failing (k seeded over the run's writes): the failing call returns Err without panic and every prefix acknowledged by an earlier flush still reads back", n2, |rs, _| {
         let mut sc = gen_store(rs, "C15", &[Backend::ZarrSync]);
         let mut r = Prng::sub(rs, "storefault");
@@ -528,7 +528,7 @@ fn c15(tier: Tier, seed: u64) -> i32 {
         sc.filesystem = r.chance(0.25);
         sc
     });
-    let n3 = ctx.n(250, 25_000);
+    let n3 = ctx.n(250, 2_500);
     ctx.run_batch("async_flush_points", "async Zarr writer: a quarter of all store writes complete only after a seeded delay of 1..12 ms, so a write that flush()/finalize did not wait for is missing from the snapshot taken when the call returns; flush after (almost) every draw, chunk sizes incl. 1 (flush with empty buffers and writes still in flight)", n3, |rs, _| {
         let mut sc = gen_store(rs, "C15", &[Backend::ZarrAsync]);
         let mut r = Prng::sub(rs, "async");
@@ -543,7 +543,7 @@ fn c15(tier: Tier, seed: u64) -> i32 {
         sc.vars.truncate(3);
         sc
     });
-    let n4 = ctx.n(100, 10_000);
+    let n4 = ctx.n(100, 1_000);
     ctx.run_batch("async_store_write_faults", "async writer with the k-th store write failing", n4, |rs, _| {
         let mut sc = gen_store(rs, "C15", &[Backend::ZarrAsync]);
         let mut r = Prng::sub(rs, "asyncfault");
